@@ -187,6 +187,32 @@ class ModuleInfo:
         return ast.unparse(e)
 
 
+class _SelfAssigns(ast.NodeVisitor):
+    def __init__(self):
+        self.names = set()
+
+    def _target(self, t):
+        if isinstance(t, ast.Attribute) and isinstance(t.value, ast.Name) and t.value.id == "self":
+            self.names.add(t.attr)
+        elif isinstance(t, (ast.Tuple, ast.List)):
+            for e in t.elts:
+                self._target(e)
+
+    def visit_Assign(self, node):
+        for t in node.targets:
+            self._target(t)
+        self.generic_visit(node)
+
+    def visit_AugAssign(self, node):
+        self._target(node.target)
+        self.generic_visit(node)
+
+    def visit_AnnAssign(self, node):
+        if node.value is not None:
+            self._target(node.target)
+        self.generic_visit(node)
+
+
 class Repo:
     def __init__(self, root: str | None = None):
         self.root = root or REPO_ROOT
@@ -223,6 +249,24 @@ class Repo:
             if len(rest) == 1 and rest[0] in m.classes:
                 return m, m.classes[rest[0]], None
         return None, None, None
+
+    def assigns_instance_attr(self, name: str) -> bool:
+        """Does any method anywhere in the repository sources rebind `self.<name>`?  (Scanned
+        over all of xandikos/*.py, tests excluded; conservative: not per class.)"""
+        if not hasattr(self, "_self_assigns"):
+            v = _SelfAssigns()
+            base = os.path.join(self.root, "xandikos")
+            for d, dirs, files in os.walk(base):
+                dirs[:] = [x for x in dirs if x not in ("tests", "__pycache__")]
+                for f in files:
+                    if f.endswith(".py"):
+                        try:
+                            with open(os.path.join(d, f)) as fh:
+                                v.visit(ast.parse(fh.read()))
+                        except SyntaxError:
+                            pass
+            self._self_assigns = v.names
+        return name in self._self_assigns
 
     def lookup_class(self, qualname: str) -> ClassInfo | None:
         mod, _, cls = qualname.rpartition(".")
